@@ -14,6 +14,7 @@ var checks = map[string]func(run *ev.Run){
 	"C01": genlab.CheckC01,
 	"C02": genlab.CheckC02,
 	"C03": genlab.CheckC03,
+	"C04": genlab.CheckC04,
 	"C05": genlab.CheckC05,
 	"C06": genlab.CheckC06,
 	"C07": genlab.CheckC07,
